@@ -404,11 +404,23 @@ def r4_installed_reader(chk, fx):
                  clo["def"], loc_of(w.get("sp")), holds=bool(order_ok), key="C01/R4 try_into_ranges bounds-order")
     # writer/reader agreement on the leaf format
     wr = None
-    for n, tt in fx.thir.items():
-        if "policies::load::write_route_filter" in n:
+    # the template is in write_route_filter or in a private helper of the payload writer it calls (any non-test body of policies::load
+    # with a two-placeholder format template is a candidate; the one with the reader's separator between the placeholders is it)
+    cands = []
+    for n, tt in sorted(fx.thir.items()):
+        if "::policies::load::" in n and "::tests::" not in n:
             for c in T.walk(tt["body"]):
                 if c.get("k") == "Lit" and c.get("lk") == "bytes" and (c.get("sp") or {}).get("m") in ("format", "format_args"):
-                    wr = (n, c)
+                    if "policies::load::write_route_filter" in n:
+                        wr = (n, c)
+                    ps = _template_pieces(c["v"])
+                    if sum(1 for x in ps if x is None) == 2:
+                        cands.append((n, c))
+    if wr is None:
+        called = {c.get("fn") for n, tt in fx.thir.items() if "policies::load::write_route_filter" in n for c in T.find(T.norm(tt["body"]), "Call") if c.get("fn")}
+        reach = [(n, c) for (n, c) in cands if any(n == f or n.startswith(f + "::{closure") or T.strip_generics(n) == T.strip_generics(f) for f in called)]
+        if len(reach) == 1:
+            wr = reach[0]
     if wr is None:
         raise F.AnchorLost("write_route_filter: prefix-length-range format template not found")
     pieces = _template_pieces(wr[1]["v"])
